@@ -40,14 +40,27 @@ EXPLANATION = (
     "statuses the adapter translates) are raised in exactly those cases; (11) _ignore_404 swallows 404, the "
     "adapter's add_lease swallows only 404, slot_testv_and_readv_and_writev returns (success, reads), "
     "allocate_buckets returns (already_have, writers of allocated), the Foolscap adapter passes write vectors / "
-    "new_length through unchanged. "
+    "new_length through unchanged; (12) the share length the read handlers hand to read_range is the bound the "
+    "direct read truncates with: ShareFile.get_length() and the end of data derived from read_share_data's "
+    "min(length.., bound) are equal polynomials once the attributes are replaced by what ShareFile.__init__ stores "
+    "on the same path, BucketReader.read/get_length delegate to one share file with (offset, length) unchanged, "
+    "MutableShareFile.get_length and the truncation in _read_share_data read the data length through the same "
+    "method, get_mutable_share_length opens the file of (storage_index, share_number); (13) UploadsInProgress keeps "
+    "an upload reachable until its own BucketWriter is removed: every deletion from _uploads is dominated by an "
+    "edge on which that entry's share map is empty (no wholesale clear / rebinding), remove_write_bucket deletes "
+    "only the (storage index, share number) recorded in _bucketwriters for the closing writer, add_write_bucket "
+    "stores the writer under _uploads[si].shares[n], records the reverse mapping and never overwrites an existing "
+    "entry with a fresh one, get_write_bucket returns _uploads[si].shares[n] for its own arguments, "
+    "allocate_buckets registers every (share number, writer) the backend allocated with the upload secret. "
     "Undecided: equivalence of results over operation histories, CBOR/base64/werkzeug value-level behaviour, "
     "timeouts and connection handling; the malformed-request guards of the server (Range / Content-Range / "
     "Authorization / secret-length checks) and the sanity checks of the client (content type, Content-Range "
     "present, body length == stop - start): inverting them makes every request fail at once, weakening them is "
     "invisible with a well-formed peer; which size request.content.read is asked for (min(remaining, 64KiB)); "
     "_ReadRangeProducer's internal accounting; the `required` ranges reported after a chunk (not used by the "
-    "adapter); the _uploads bookkeeping of allocate_buckets; exact error statuses other than "
+    "adapter); the upload-secret check of validate_upload_secret; whether the close handler that calls "
+    "remove_write_bucket is registered; the actual on-disk lease count / data length values (C31.12 compares "
+    "the formulas, not file contents); exact error statuses other than "
     "204/401/404/409/416.")
 TECHNIQUE = ("static analysis: extraction of route/request/schema tables from both sides and comparison; CFG edge facts; "
              "must-precede / must-follow path queries on the handlers, the client functions and the adapter")
@@ -1617,6 +1630,24 @@ def run(ctx: Context):
             r.require(ok, fool, fool.loc(dc), "the Foolscap adapter sends %s per share; the HTTP path was compared against "
                       "(tests of value[0], value[1], value[2])" % src(fool, dc.value))
 
+    # ---------------------------------------------------------------- 12 ------
+    with ctx.rule("C31.12", "R5", "the share length the HTTP read handlers clip Range reads with is the end-of-data bound the "
+                  "direct read truncates with: ShareFile.get_length() == the bound of read_share_data (as polynomials over "
+                  "what __init__ stores), BucketReader delegates both to one share file, MutableShareFile.get_length and "
+                  "_read_share_data use the same length source, get_mutable_share_length asks the share (si, shnum)",
+                  expected=4) as r:
+        immutable_length_agreement(idx, r)
+        bucket_reader_delegation(idx, r)
+        mutable_length_agreement(idx, r)
+
+    # ---------------------------------------------------------------- 13 ------
+    with ctx.rule("C31.13", "R1", "UploadsInProgress: an in-progress share upload stays reachable for the HTTP handlers until "
+                  "its own BucketWriter is removed - a storage-index entry leaves _uploads only when it has no shares left, "
+                  "remove_write_bucket drops only the closing writer's share, add_write_bucket never replaces an existing "
+                  "entry, get_write_bucket looks up (storage_index, share_number), allocate_buckets registers every "
+                  "allocated writer", expected=5) as r:
+        uploads_tracking(idx, r)
+
 
 def fmt(keys):
     return "{" + ", ".join(sorted(("b" if k == "b" else "") + repr(v) for (k, v) in keys if (k, v) is not None)) + "}" \
@@ -1984,3 +2015,515 @@ def subscript_key(e):
     if isinstance(e, ast.Subscript) and isinstance(e.slice, ast.Constant) and isinstance(e.slice.value, (str, bytes)):
         return e.slice.value
     return None
+
+
+# ------------------------------------------------------------------ C31.12 / C31.13 helpers
+def single_defs(fn):
+    """local name -> its only defining expression (parameters and opaque bindings excluded)."""
+    ps = set(fn.params)
+    return {k: v[0] for k, v in all_defs(fn).items() if len(v) == 1 and v[0] is not None and k not in ps}
+
+
+def deref(sd, e, depth=4):
+    """Follow plain-name copies: a Name with one definition -> its defining expression."""
+    while isinstance(e, ast.Name) and e.id in sd and depth > 0:
+        e = sd[e.id]
+        depth -= 1
+    return e
+
+
+def deep_walk(sd, e, depth=4):
+    """All AST nodes of e, entering the single definition of every local name met."""
+    out, todo, seen = [], [(e, depth)], set()
+    while todo:
+        x, d = todo.pop()
+        for y in ast.walk(x):
+            out.append(y)
+            if isinstance(y, ast.Name) and y.id in sd and d > 0 and y.id not in seen:
+                seen.add(y.id)
+                todo.append((sd[y.id], d - 1))
+    return out
+
+
+def poly_or_none(nm, e):
+    try:
+        return nm.poly(e)
+    except Exception:
+        return None
+
+
+def poly_subst(p, mapping):
+    out = Poly()
+    for k, c in p.t.items():
+        term = Poly.const(c)
+        for a in k:
+            term = term * (mapping[a] if a in mapping else Poly.atom(a))
+        out = out + term
+    return out
+
+
+def self_attr_atoms(p):
+    return {a for a in p.atoms() if re.match(r"^self\.[A-Za-z_]\w*$", a)}
+
+
+def reach_set(cfg, n):
+    vis, _p = explore(cfg, 0, lambda a, lb, nx, st: 0, start=n)
+    return {nid for (nid, _s) in vis}
+
+
+def return_values(fn):
+    return [(n, n.ast.value) for n in fn.cfg().find(is_return) if n.ast.value is not None]
+
+
+def immutable_length_agreement(idx, r):
+    """ShareFile: get_length() (what http read_share_chunk hands to read_range as share_length) and the bound
+    read_share_data truncates with (the direct BucketReader.read) are the same quantity once the attributes are
+    replaced by what __init__ stores in them."""
+    sf = idx.cls("storage.immutable:ShareFile")
+    init = idx.func("storage.immutable:ShareFile.__init__")
+    gl = idx.func("storage.immutable:ShareFile.get_length")
+    rs = idx.func("storage.immutable:ShareFile.read_share_data")
+    rp = first_positional_params(rs)
+    if len(rp) < 2:
+        raise AnchorVanished("ShareFile.read_share_data(offset, length)")
+    off, ln = rp[0], rp[1]
+    nrs, sd = N(rs), single_defs(rs)
+    # bytes handed to <file>.read(..) are limited by min(<.. length ..>, bound)
+    fed = []
+    for c in calls_in_func(rs, "read"):
+        if c.args:
+            fed += deep_walk(sd, c.args[0])
+    clips = []
+    for x in fed:
+        if isinstance(x, ast.Call) and isinstance(x.func, ast.Name) and x.func.id == "min" and len(x.args) == 2 and not x.keywords:
+            ps = [poly_or_none(nrs, a) for a in x.args]
+            if None in ps:
+                continue
+            wl = [i for i, p in enumerate(ps) if ln in p.atoms()]
+            if len(wl) == 1:
+                a, b = ps[wl[0]], ps[1 - wl[0]]
+                # min(length + k, b): at most b - k bytes from `offset` on, i.e. the data ends at b - k + offset
+                clips.append((x, b - a + Poly.atom(ln) + Poly.atom(off)))
+    if not clips:
+        raise AnchorVanished("ShareFile.read_share_data no longer limits the bytes it reads with min(%s.., <bound>)" % ln)
+    rets = return_values(gl)
+    if not rets:
+        raise AnchorVanished("ShareFile.get_length returns nothing")
+    ngl = N(gl)
+    lens = []
+    for (n, v) in rets:
+        p = poly_or_none(ngl, v)
+        if p is None:
+            raise AnalysisError("ShareFile.get_length returns %s: not arithmetic over the share file's attributes" % src(gl, v))
+        lens.append((n, v, p))
+    # what the attributes hold: stores of self.<attr> in the class
+    st = {}
+    for m in sf.methods.values():
+        for n in m.cfg().nodes:
+            for pth in node_stores(n):
+                if re.match(r"^self\.[A-Za-z_]\w*$", pth):
+                    st.setdefault(pth, []).append((m, n, assign_value(n, pth)))
+    ninit = N(init)
+    needed, todo = set(), set()
+    for (_x, d) in clips:
+        todo |= self_attr_atoms(d)
+    for (_n, _v, p) in lens:
+        todo |= self_attr_atoms(p)
+    vals = {}
+    while todo:
+        a = todo.pop()
+        if a in needed or a not in st:
+            continue
+        needed.add(a)
+        vals[a] = []
+        for (m, n, v) in st[a]:
+            if m is not init:
+                raise AnalysisError("%s is also assigned in %s: the share length is not a function of __init__ alone" % (a, short(m)))
+            p = poly_or_none(ninit, v) if v is not None else None
+            if p is None:
+                raise AnalysisError("%s is bound to a value the polynomial normal form cannot express (%s)" % (a, init.loc(n.ast)))
+            vals[a].append((n, p))
+            todo |= self_attr_atoms(p)
+    icfg = init.cfg()
+    reach = {}
+
+    def together(n1, n2):
+        for x in (n1, n2):
+            if x.id not in reach:
+                reach[x.id] = reach_set(icfg, x)
+        return n1 is n2 or n2.id in reach[n1.id] or n1.id in reach[n2.id]
+    attrs = sorted(needed)
+    combos = [[]]
+    for a in attrs:
+        combos = [cb + [(a, n, p)] for cb in combos for (n, p) in vals[a] if all(together(n, n0) for (_a, n0, _p) in cb)]
+    if not combos:
+        raise AnalysisError("no path of ShareFile.__init__ assigns all of %s" % ", ".join(attrs))
+    r.site(gl, None, "immutable share length == bound of the direct read (%d initialisation path(s))" % len(combos))
+    r.count(len(combos) * len(clips) * len(lens))
+
+    def full(p, mapping):
+        for _i in range(6):
+            if not (self_attr_atoms(p) & set(mapping)):
+                break
+            p = poly_subst(p, mapping)
+        return p
+    for cb in combos:
+        mapping = {a: p for (a, _n, p) in cb}
+        for (x, d) in clips:
+            dd = full(d, mapping)
+            if {off, ln} & dd.atoms():
+                raise AnalysisError("cannot derive the end of the share data from %s in read_share_data" % src(rs, x))
+            for (n, v, p) in lens:
+                pp = full(p, mapping)
+                if pp != dd:
+                    culprit = [n0 for (a, n0, _p) in cb if a in self_attr_atoms(p)]
+                    r.violation(init if culprit else gl, init.loc(culprit[0].ast) if culprit else gl.loc(n.ast),
+                                "ShareFile.get_length() = %s is %s, but read_share_data (the direct BucketReader.read) ends the "
+                                "share data at %s [%s]: the HTTP read handler clips Range reads to a length the direct read "
+                                "does not use, so reads reaching the end of the share differ" % (
+                                    src(gl, v), pp, dd, src(rs, x)))
+
+
+def bucket_reader_delegation(idx, r):
+    """BucketReader.read and BucketReader.get_length (both handed to read_range by the HTTP handler) go to the same
+    share file, read() with its own (offset, length)."""
+    br = idx.cls("storage.immutable:BucketReader")
+    rd, bgl = br.methods.get("read"), br.methods.get("get_length")
+    if rd is None or bgl is None:
+        raise AnchorVanished("BucketReader.read / get_length")
+    rs = idx.func("storage.immutable:ShareFile.read_share_data")
+    sp = first_positional_params(rs)
+    rp = first_positional_params(rd)
+    fn_ = FlowNorm(rd)
+    sd = single_defs(rd)
+    calls = [(n, c) for n in rd.cfg().nodes for c in calls_at(n, "read_share_data")]
+    if not calls:
+        raise AnchorVanished("BucketReader.read no longer calls read_share_data")
+    r.site(rd, calls[0][1], "BucketReader.read / get_length use one share file")
+    recvs = set()
+    for (n, c) in calls:
+        recvs.add(attr_path(c.func.value))
+        a0, a1 = arg(c, 0, sp[0]), arg(c, 1, sp[1])
+        ok = a0 is not None and a1 is not None and len(rp) >= 2 and fn_.norm(n, a0) == rp[0] and fn_.norm(n, a1) == rp[1]
+        r.require(ok, rd, rd.loc(c), "BucketReader.read(%s) reads %s: the HTTP producer and the direct path ask for "
+                  "(offset, length) and expect exactly that range" % (", ".join(rp), src(rd, c)))
+    for (n, v) in return_values(rd):
+        r.require(any(any(y is c for (_n, c) in calls) for y in deep_walk(sd, v)), rd, rd.loc(n.ast),
+                  "BucketReader.read returns %s, not the bytes read from the share file" % src(rd, v))
+    r.require(bool(return_values(rd)), rd, rd.loc(), "BucketReader.read returns nothing")
+    gsd = single_defs(bgl)
+    grets = return_values(bgl)
+    r.require(bool(grets), bgl, bgl.loc(), "BucketReader.get_length returns nothing")
+    for (n, v) in grets:
+        v2 = deref(gsd, v)
+        ok = isinstance(v2, ast.Call) and call_tail(v2) == "get_length" and not v2.args \
+            and isinstance(v2.func, ast.Attribute) and attr_path(v2.func.value) in recvs
+        r.require(ok, bgl, bgl.loc(n.ast), "BucketReader.get_length returns %s, not the get_length() of the share file (%s) "
+                  "that read() reads from" % (src(bgl, v), ", ".join(sorted(x or "?" for x in recvs))))
+
+
+def mutable_length_agreement(idx, r):
+    """MutableShareFile: get_length (-> get_mutable_share_length -> read_mutable_chunk's share_length) and the clip of
+    _read_share_data (slot_readv, used by both paths) take the data length from the same helper."""
+    mgl = idx.func("storage.mutable:MutableShareFile.get_length")
+    mrs = idx.func("storage.mutable:MutableShareFile._read_share_data")
+    mp = first_positional_params(mrs)
+    if len(mp) < 3:
+        raise AnchorVanished("MutableShareFile._read_share_data(f, offset, length)")
+    off, ln = mp[1], mp[2]
+    sd = single_defs(mrs)
+    # the truncation: length is rebound to .. <X> - offset ..
+    srcs = []
+    for n in mrs.cfg().nodes:
+        if ln in node_stores(n) and isinstance(n.ast, ast.Assign):
+            for y in deep_walk(sd, n.ast.value):
+                if isinstance(y, ast.BinOp) and isinstance(y.op, ast.Sub) and isinstance(y.right, ast.Name) and y.right.id == off:
+                    x = deref(sd, y.left)
+                    srcs.append((n, x))
+    if not srcs:
+        raise AnchorVanished("MutableShareFile._read_share_data no longer truncates %s to <data length> - %s" % (ln, off))
+    r.site(mgl, None, "mutable share length == bound of slot_readv")
+
+    def self_call(e):
+        return call_name(e) if isinstance(e, ast.Call) and isinstance(e.func, ast.Attribute) and attr_path(e.func.value) == "self" else None
+    want = {self_call(x) for (_n, x) in srcs}
+    if None in want:
+        raise AnalysisError("the data length _read_share_data truncates with is not read through a method of the share file")
+    gsd = single_defs(mgl)
+    grets = return_values(mgl)
+    if not grets:
+        raise AnchorVanished("MutableShareFile.get_length returns nothing")
+    for (n, v) in grets:
+        v2 = deref(gsd, v)
+        r.require(self_call(v2) in want, mgl, mgl.loc(n.ast), "MutableShareFile.get_length returns %s; slot_readv truncates reads "
+                  "with %s: the HTTP read handler clips Range reads to a length the read itself does not use" % (
+                      src(mgl, v2), ", ".join(sorted(want))))
+    # StorageServer.get_mutable_share_length(si, shnum) asks that share's file
+    g = idx.func("storage.server:StorageServer.get_mutable_share_length")
+    gp = first_positional_params(g)
+    gd = single_defs(g)
+    rets = return_values(g)
+    if not rets:
+        raise AnchorVanished("get_mutable_share_length returns nothing")
+    r.site(g, None, "length of the share (si, shnum)")
+    for (n, v) in rets:
+        v2 = deref(gd, v)
+        ok = isinstance(v2, ast.Call) and call_tail(v2) == "get_length" and isinstance(v2.func, ast.Attribute)
+        ctor = deref(gd, v2.func.value) if ok else None
+        ok = ok and isinstance(ctor, ast.Call) and call_tail(ctor) == "MutableShareFile" and bool(ctor.args)
+        if not r.require(ok, g, g.loc(n.ast), "get_mutable_share_length returns %s, not MutableShareFile(<share path>)."
+                         "get_length()" % src(g, v)):
+            continue
+        deps = depends_on(g, ctor.args[0])
+        r.require(set(gp[:2]) <= deps, g, g.loc(n.ast), "the share file opened by get_mutable_share_length does not depend on %s" % (
+            ", ".join(sorted(set(gp[:2]) - deps))))
+
+
+REMOVERS = {"pop", "popitem", "clear", "__delitem__"}
+
+
+def uploads_tracking(idx, r):
+    up = idx.cls("storage.http_server:UploadsInProgress")
+    siu = idx.cls("storage.http_server:StorageIndexUploads")
+    fields = [f for (f, _a) in class_fields(siu)]
+    wfield = [f for (f, a) in class_fields(siu) if any(isinstance(x, ast.Name) and x.id == "BucketWriter" for x in ast.walk(a))]
+    if len(wfield) != 1:
+        raise AnchorVanished("the BucketWriter map of StorageIndexUploads")
+    wfield = wfield[0]
+    own = {st.target.id for st in up.node.body if isinstance(st, ast.AnnAssign) and isinstance(st.target, ast.Name)}
+    if not {"_uploads", "_bucketwriters"} <= own:
+        raise AnchorVanished("UploadsInProgress._uploads / _bucketwriters")
+    top, back = "self._uploads", "self._bucketwriters"
+    top_ast = parse_expr(top)
+
+    def entry_of(fnm, sd, n, e, fn=None):
+        """e denotes self._uploads[K] (subscript / get / setdefault, or a local the function stores there) -> K, else None."""
+        e0 = e
+        e = deref(sd, e)
+        if isinstance(e, ast.Subscript) and fnm.norm(n, e.value) == top:
+            return e.slice
+        if isinstance(e, ast.Call) and call_tail(e) in ("get", "setdefault") and isinstance(e.func, ast.Attribute) \
+                and fnm.norm(n, e.func.value) == top and e.args:
+            return e.args[0]
+        if fn is not None and isinstance(e0, ast.Name):
+            for x in func_own_nodes(fn):
+                if isinstance(x, ast.Assign) and ((isinstance(x.value, ast.Name) and x.value.id == e0.id)
+                                                  or any(isinstance(t, ast.Name) and t.id == e0.id for t in x.targets)):
+                    for t in x.targets:
+                        if isinstance(t, ast.Subscript) and attr_path(t.value) == top:
+                            return t.slice
+        return None
+
+    def removals(m, fnm, sd):
+        """(node, what, key ast|None, receiver ast, where) for every deletion from a dict in method m."""
+        out = []
+        for n in m.cfg().nodes:
+            for c in node_calls(n):
+                if isinstance(c.func, ast.Attribute) and c.func.attr in REMOVERS:
+                    key = c.args[0] if c.args and c.func.attr in ("pop", "__delitem__") else None
+                    out.append((n, c, key, c.func.value))
+            if n.kind == "stmt" and isinstance(n.ast, ast.Delete):
+                for t in n.ast.targets:
+                    if isinstance(t, ast.Subscript):
+                        out.append((n, t, t.slice, t.value))
+        return out
+
+    # -- (a) a storage-index entry is dropped only when no share is left in it -------------------------------------
+    n_top = 0
+    rm = up.methods.get("remove_write_bucket")
+    if rm is None:
+        raise AnchorVanished("UploadsInProgress.remove_write_bucket")
+    for m in up.methods.values():
+        fnm, sd, cfg = FlowNorm(m), single_defs(m), m.cfg()
+        for n in cfg.nodes:
+            if top in node_stores(n):
+                r.violation(m, m.loc(n.ast), "%s rebinds %s: every tracked upload is forgotten, later PATCH requests of "
+                            "unfinished shares get 404 while a direct BucketWriter keeps working" % (short(m), top))
+        for (n, what, key, recv) in removals(m, fnm, sd):
+            if fnm.norm(n, recv) != top:
+                continue
+            n_top += 1
+            if key is None:
+                r.violation(m, m.loc(n.ast), "%s removes entries of %s wholesale (%s): uploads of other shares become "
+                            "unreachable (404) while their direct BucketWriters keep working" % (short(m), top, src(m, what)))
+                continue
+
+            def gate(g, lab, _key=key, _fnm=fnm):
+                f = _fnm.edge_fact(g, lab)
+                if not f:
+                    return False
+                for fld in fields:
+                    e = ast.Attribute(value=ast.Subscript(value=top_ast, slice=_key, ctx=ast.Load()), attr=fld, ctx=ast.Load())
+                    s = _fnm.norm(g, e)
+                    ln_ = _fnm.norm(g, ast.Call(func=ast.Name(id="len", ctx=ast.Load()), args=[e], keywords=[]))
+                    if f[0] == "false" and f[1] == s:
+                        return True
+                    if f[0] == "==" and {f[1], f[2]} == {"0", ln_}:
+                        return True
+                    if f[0] in ("<", "<=") and f[1] == ln_ and f[2] == ("1" if f[0] == "<" else "0"):
+                        return True
+                return False
+            for (t, wt) in find_path_avoiding(cfg, lambda x, _n=n: x is _n, gate_edge=gate):
+                r.violation(m, m.loc(n.ast), "%s removes the whole entry %s[%s] (%s) without having found it empty of shares: "
+                            "when one share of a storage index closes or aborts, the other shares still being uploaded can "
+                            "no longer be found (PATCH -> 404) although their direct BucketWriters keep working (path: %s)" % (
+                                short(m), top, fnm.norm(n, key), src(m, what), wt.brief()), wt)
+    r.site(rm, None, "storage-index entry removed only when empty (%d removal site(s))" % n_top)
+    r.count(n_top)
+
+    # -- (b) remove_write_bucket drops only the share of the closing writer -----------------------------------------
+    fnm, sd, cfg = FlowNorm(rm), single_defs(rm), rm.cfg()
+    bparam = first_positional_params(rm)[0]
+
+    def is_lookup(v):
+        if isinstance(v, ast.Call) and call_tail(v) in ("pop", "get") and isinstance(v.func, ast.Attribute) \
+                and attr_path(v.func.value) == back and v.args:
+            return isinstance(v.args[0], ast.Name) and v.args[0].id == bparam
+        if isinstance(v, ast.Subscript) and attr_path(v.value) == back:
+            return isinstance(v.slice, ast.Name) and v.slice.id == bparam
+        return False
+
+    def component(e):
+        e = deref(sd, e)
+        if isinstance(e, ast.Subscript) and isinstance(e.slice, ast.Constant) and e.slice.value in (0, 1) \
+                and is_lookup(deref(sd, e.value)):
+            return e.slice.value
+        return None
+    if not any(is_lookup(x) for x in deep_walk(sd, rm.node)):
+        raise AnchorVanished("remove_write_bucket no longer looks up %s[%s]" % (back, bparam))
+    r.site(rm, None, "only the closing writer's share is dropped")
+    for (n, what, key, recv) in removals(rm, fnm, sd):
+        if not (isinstance(recv, ast.Attribute) and recv.attr in fields):
+            if fnm.norm(n, recv) == top and key is not None and component(key) != 0:
+                r.violation(rm, rm.loc(n.ast), "remove_write_bucket removes %s[%s], which is not the storage index recorded for "
+                            "the closing BucketWriter" % (top, src(rm, key)))
+            continue
+        k = entry_of(fnm, sd, n, recv.value)
+        if k is None:
+            continue        # some other object's attribute of the same name
+        if key is None:
+            r.violation(rm, rm.loc(n.ast), "remove_write_bucket empties %s of the storage index (%s): the other shares still "
+                        "being uploaded can no longer be found (404), their direct BucketWriters keep working" % (
+                            recv.attr, src(rm, what)))
+            continue
+        r.require(component(k) == 0 and component(key) == 1, rm, rm.loc(n.ast),
+                  "remove_write_bucket drops %s: not the (storage index, share number) recorded in %s for the closing "
+                  "BucketWriter, so another upload in progress becomes unreachable" % (src(rm, what), back))
+
+    # -- (c) get_write_bucket looks up (storage_index, share_number) ------------------------------------------------
+    gw = up.methods.get("get_write_bucket")
+    if gw is None:
+        raise AnchorVanished("UploadsInProgress.get_write_bucket")
+    gp = first_positional_params(gw)
+    gfn, gsd = FlowNorm(gw), single_defs(gw)
+    rets = return_values(gw)
+    if not rets:
+        raise AnchorVanished("get_write_bucket returns nothing")
+    r.site(gw, rets[0][1], "lookup by (storage_index, share_number)")
+    for (n, v) in rets:
+        v2 = deref(gsd, v)
+        k2 = cont = None
+        if isinstance(v2, ast.Subscript):
+            k2, cont = v2.slice, v2.value
+        elif isinstance(v2, ast.Call) and call_tail(v2) == "get" and isinstance(v2.func, ast.Attribute) and v2.args:
+            k2, cont = v2.args[0], v2.func.value
+        cont = deref(gsd, cont) if cont is not None else None
+        k1 = entry_of(gfn, gsd, n, cont.value) if isinstance(cont, ast.Attribute) else None
+        if k1 is None:
+            raise AnalysisError("get_write_bucket returns %s: not an entry of %s[..].<field>[..]" % (src(gw, v), top))
+        r.require(cont.attr == wfield and gfn.norm(n, k1) == gp[0] and gfn.norm(n, k2) == gp[1], gw, gw.loc(n.ast),
+                  "get_write_bucket(%s) returns %s instead of %s[%s].%s[%s]: the chunk is written to another upload than the "
+                  "direct path writes to" % (", ".join(gp), src(gw, v2), top, gp[0], wfield, gp[1]))
+
+    # -- (d) add_write_bucket records the writer and keeps the entries of the other shares --------------------------
+    aw = up.methods.get("add_write_bucket")
+    if aw is None:
+        raise AnchorVanished("UploadsInProgress.add_write_bucket")
+    ap = first_positional_params(aw)
+    if len(ap) < 4:
+        raise AnchorVanished("add_write_bucket(storage_index, share_number, upload_secret, bucket)")
+    afn, asd, acfg = FlowNorm(aw), single_defs(aw), aw.cfg()
+    r.site(aw, None, "writer recorded, existing entry kept")
+
+    def records(n):
+        a = n.ast
+        if not (n.kind == "stmt" and isinstance(a, ast.Assign)):
+            return False
+        for t in a.targets:
+            if isinstance(t, ast.Subscript) and isinstance(t.value, ast.Attribute) and t.value.attr == wfield:
+                k = entry_of(afn, asd, n, t.value.value, aw)
+                if k is not None and afn.norm(n, k) == ap[0] and afn.norm(n, t.slice) == ap[1] and afn.norm(n, a.value) == ap[3]:
+                    return True
+        return False
+
+    def back_recorded(n):
+        a = n.ast
+        if not (n.kind == "stmt" and isinstance(a, ast.Assign)):
+            return False
+        for t in a.targets:
+            if isinstance(t, ast.Subscript) and attr_path(t.value) == back and afn.norm(n, t.slice) == ap[3]:
+                v = deref(asd, a.value)
+                if isinstance(v, ast.Tuple) and [afn.norm(n, e) for e in v.elts] == [ap[0], ap[1]]:
+                    return True
+        return False
+    for (t, wt) in find_path_avoiding(acfg, is_exit, gate_node=records):
+        r.violation(aw, aw.loc(), "add_write_bucket can return without storing %s under %s[%s].%s[%s]: the allocated share "
+                    "cannot be written through HTTP (404) (path: %s)" % (ap[3], top, ap[0], wfield, ap[1], wt.brief()), wt)
+    for (t, wt) in find_path_avoiding(acfg, is_exit, gate_node=back_recorded):
+        r.violation(aw, aw.loc(), "add_write_bucket can return without recording %s[%s] = (%s, %s): remove_write_bucket "
+                    "cannot find the upload when the writer closes (path: %s)" % (back, ap[3], ap[0], ap[1], wt.brief()), wt)
+    for m in up.methods.values():
+        mfn, msd, mcfg = FlowNorm(m), single_defs(m), m.cfg()
+        for n in mcfg.nodes:
+            a = n.ast
+            if not (n.kind == "stmt" and isinstance(a, ast.Assign)):
+                continue
+            for t in a.targets:
+                if isinstance(t, ast.Subscript) and mfn.norm(n, t.value) == top:
+                    v = deref(msd, a.value)
+                    if not (isinstance(v, ast.Call) and call_tail(v) == siu.name):
+                        continue
+
+                    def absent(g, lab, _k=t.slice, _f=mfn):
+                        f = _f.edge_fact(g, lab)
+                        return bool(f) and f[0] == "not in" and f[1] == _f.norm(g, _k) and f[2] == top
+                    for (_t, wt) in find_path_avoiding(mcfg, lambda x, _n=n: x is _n, gate_edge=absent):
+                        r.violation(m, m.loc(a), "%s stores a fresh %s under %s[%s] although an entry may exist: the uploads "
+                                    "of the other shares of that storage index are forgotten (PATCH -> 404) (path: %s)" % (
+                                        short(m), siu.name, top, src(m, t.slice), wt.brief()), wt)
+
+    # -- (e) allocate_buckets registers every allocated writer ------------------------------------------------------
+    ab = idx.func(HS + ".allocate_buckets")
+    bp = first_positional_params(ab)       # request, authorization, storage_index
+    bfn, bsd, bcfg = FlowNorm(ab), single_defs(ab), ab.cfg()
+    regs = [(n, c) for n in bcfg.nodes for c in calls_at(n, "add_write_bucket") if call_name(c) == "self._uploads.add_write_bucket"]
+    r.site(ab, regs[0][1] if regs else None, "every allocated writer registered")
+    if r.require(bool(regs), ab, ab.loc(), "allocate_buckets never registers the allocated BucketWriters with self._uploads: "
+                 "no share can be written through HTTP"):
+        loops = [x for x in func_own_nodes(ab) if isinstance(x, (ast.For, ast.AsyncFor))]
+        for (n, c) in regs:
+            lp = [x for x in loops if any(y is c for y in ast.walk(x))]
+            ok = bool(lp)
+            if ok:
+                lp = lp[-1]
+                it, tg = lp.iter, lp.target
+                ok = isinstance(it, ast.Call) and call_tail(it) == "items" and isinstance(it.func, ast.Attribute) \
+                    and isinstance(tg, ast.Tuple) and len(tg.elts) == 2 and all(isinstance(e, ast.Name) for e in tg.elts)
+            if ok:
+                d = deref(bsd, it.func.value)
+                d0 = deref(bsd, d.value) if isinstance(d, ast.Subscript) else None
+                ok = isinstance(d, ast.Subscript) and isinstance(d.slice, ast.Constant) and d.slice.value == 1 \
+                    and isinstance(d0, ast.Call) and call_name(d0) == "self._storage_server.allocate_buckets"
+            if not r.require(ok, ab, ab.loc(c), "the BucketWriters are not registered for every (share number, writer) of the "
+                             "dict self._storage_server.allocate_buckets returned"):
+                continue
+            got = [arg(c, i, p) for i, p in enumerate(ap[:4])]
+            ok = all(g is not None for g in got) and bfn.norm(n, got[0]) == bp[2] \
+                and isinstance(got[1], ast.Name) and got[1].id == tg.elts[0].id \
+                and bfn.norm(n, got[2]) == norm_src("%s[Secrets.UPLOAD]" % bp[1]) \
+                and isinstance(got[3], ast.Name) and got[3].id == tg.elts[1].id
+            r.require(ok, ab, ab.loc(c), "allocate_buckets registers %s; expected (%s, <share number>, %s[Secrets.UPLOAD], "
+                      "<its writer>)" % (src(ab, c), bp[2], bp[1]))
+            for (_t, wt) in find_path_avoiding(bcfg, is_exit, gate_node=lambda g, _l=lp: g.kind == "iter" and g.ast is _l):
+                r.violation(ab, ab.loc(c), "allocate_buckets can answer without registering the allocated writers "
+                            "(path: %s)" % wt.brief(), wt)
